@@ -1730,3 +1730,126 @@ def _c12x(fb, rep):
 
 
 RULES['C12'] = _c12x
+
+
+# ================================================================================================ thirteenth batch (F145)
+def c17b(fb, rep):
+    """R17.15: SLUFactor / SLUFactorRational do not copy their temporary vectors vec / ssvec (rightly), but every solve with a sparse right-hand side writes
+    into them: assign() - the one function behind copy constructor, clone() and operator= - gives both the dimension of the copied factorization
+    (reDim(thedim)) before it takes `work = vec.get_ptr()`, as load() does.  (F145)"""
+    rep.rule('R17.15', 'SLUFactor / SLUFactorRational::assign(): the temporary vectors get the dimension of the copied factorization', floor=4)
+    k = 0
+    for K in ('soplex::SLUFactor<double>', 'soplex::SLUFactorRational'):
+        fs = [f for f in fb.methods_of(K) if f.short == 'assign' and f.nodes]
+        if not fs:
+            raise AnalysisBroken('R17.15: %s::assign not found' % K)
+        f = fs[0]
+        wk = [n for n in f.nodes if n.k == 'BinaryOperator' and n.o == '=' and re.search(r'(this->)?work$', render(strip(n.kids[0]))) and 'vec.get_ptr()' in render(n.kids[1])]
+        if not wk:
+            rep.unrec('R17.15', K.replace('soplex::', '') + '|work', f.where(), '`work = vec.get_ptr()` not found in assign()')
+            continue
+        for v in ('vec', 'ssvec'):
+            k += 1
+            rd = [n for n in f.nodes if n.k == 'CXXMemberCallExpr' and n.short == 'reDim' and n.obj() is not None and render(strip(n.obj())).replace('this->', '') == v
+                  and 'thedim' in render(n) and n.l <= wk[0].l]
+            rep.check(bool(rd), 'R17.15', '%s::assign|%s' % (K.replace('soplex::', ''), v), '%s:%d' % (f.file, wk[0].l), 'reDim(thedim) before work is taken',
+                      '%s is not copied and never re-dimensioned in assign(): on a copy it keeps dimension 1 (copy constructor) or its old dimension, and every solve with a sparse '
+                      'right-hand side writes beyond it (assertion vec.index(i) < dim(); a copied SoPlex cannot answer getBasisInverse*Rational)' % v)
+    if k < 4:
+        raise AnalysisBroken('R17.15: only %d obligations' % k)
+
+
+_c17a = RULES['C17']
+
+
+def _c17(fb, rep):
+    _c17a(fb, rep)
+    c17b(fb, rep)
+
+
+RULES['C17'] = _c17
+
+
+def c03e(fb, rep):
+    """R03.13: the unboundedness test accepts the auxiliary solution without a ray when tau <= feastol (_performUnboundedIRStable); the function that undoes
+    the transformation keeps the dual multipliers under the same test - every comparison of tau with _rationalFeastol that decides the no-ray case uses
+    the same operator in both functions (with the exact tolerances 0, `<` and `<=` differ on tau = 0).  (F146)
+    R03.14: dual multipliers follow the sign convention of the objective sense: where _untransformUnbounded() normalises the multipliers by the multiplier
+    of the objective row (a scalar read from sol._dual[..] that it divides by), it consults OBJSENSE.  (F147)"""
+    rep.rule('R03.13', 'unboundedness test: tau is compared with the feasibility tolerance by the same operator where the solution is accepted and where it is used', floor=2)
+    ops = {}
+    k = 0
+    for nm in ('_performUnboundedIRStable', '_untransformUnbounded'):
+        f = fb.one(C + '::' + nm)
+        taus = set(['tau'])
+        for n in f.nodes:
+            cp = None
+            if n.k == 'BinaryOperator' and n.o in ('<', '<='):
+                cp = (n.o, n.kids[0], n.kids[1])
+            elif n.k == 'CXXOperatorCallExpr' and n.o in ('<', '<=') and len(n.args()) == 2:
+                cp = (n.o, n.args()[0], n.args()[1])
+            if not cp or f.in_assert(n):
+                continue
+            l, r = render(strip(cp[1])), render(strip(cp[2]))
+            if r.replace('this->', '') == '_rationalFeastol' and (l in taus or re.fullmatch(r'\(?sol\._primal\[\(?(numOrigCols|numColsRational\(\) - 1)\)?\]\)?', l)):
+                k += 1
+                ops.setdefault(cp[0], []).append((f, n))
+    if k < 2:
+        raise AnalysisBroken('R03.13: only %d comparisons of tau with _rationalFeastol found' % k)
+    for o, lst in sorted(ops.items()):
+        for f, n in lst:
+            rep.check(len(ops) == 1, 'R03.13', '%s|tau %s feastol' % (f.short, o), '%s:%d' % (f.file, n.l), 'one operator (%s)' % o,
+                      'tau is compared with the feasibility tolerance by %s here and by %s elsewhere: with feastol = 0 and tau = 0 the solution is accepted as "no ray" but its '
+                      'multipliers are thrown away (assert(false) "Not dual infeasible" in _optimizeRational)' % (o, sorted(set(ops) - {o})))
+    rep.rule('R03.14', '_untransformUnbounded(): the normalisation of the dual multipliers by the multiplier of the objective row consults the objective sense', floor=1)
+    f = fb.one(C + '::_untransformUnbounded')
+    div = [n for n in f.nodes if n.k in ('CompoundAssignOperator', 'CXXOperatorCallExpr') and n.o == '/=' and re.search(r'sol\._(dual|redCost)', render(n.kids[0] if n.k == 'CompoundAssignOperator' else n.args()[0]))]
+    if not div:
+        raise AnalysisBroken('R03.14: no normalisation of sol._dual / sol._redCost found in _untransformUnbounded')
+    sense = [n for n in f.nodes if n.k == 'DeclRefExpr' and n.dk == 'enum' and n.short in ('OBJSENSE_MINIMIZE', 'OBJSENSE_MAXIMIZE')]
+    rep.check(bool(sense), 'R03.14', '_untransformUnbounded|alpha', '%s:%d' % (f.file, div[0].l), 'objective sense consulted',
+              'the dual multipliers are divided by the (negated) multiplier of the objective row without looking at the objective sense: that multiplier is -1 for maximization and '
+              '+1 for minimization, the assertion alpha <= -1 + feastol fails for every infeasible minimization LP with bool:testdualinf')
+
+
+_c03y = RULES['C03']
+
+
+def _c03z(fb, rep):
+    _c03y(fb, rep)
+    c03e(fb, rep)
+
+
+RULES['C03'] = _c03z
+
+
+def c13d(fb, rep):
+    """R13.20: readLPF (both twins) registers a row name when "name:" is read and the row when it is complete; it compares the number of names with the number
+    of rows (rnames->num() against rset.num()) after a row was completed and once more behind the sections, and treats a difference as a syntax error -
+    otherwise readFile() returns true with name sets that do not match the dimensions.  (F148)"""
+    rep.rule('R13.20', 'LP-format reader: names and rows are counted against each other (after a row, and before success is returned)', floor=4)
+    k = 0
+    for f in sorted(fb.funcs.values(), key=lambda g: (g.file, g.line, g.name)):
+        if not f.nodes or f.short != 'readLPF':
+            continue
+        cmps = [n for n in f.nodes if n.k == 'BinaryOperator' and n.o in ('!=', '==') and re.search(r'rnames->num\(\)', render(n)) and re.search(r'rset\.num\(\)', render(n)) and not f.in_assert(n)]
+        inloop = [n for n in cmps if any(a.k in ('ForStmt', 'WhileStmt', 'DoStmt') for a in f.ancestors(n))]
+        after = [n for n in cmps if n not in inloop]
+        for what, lst in (('after every completed row', inloop), ('before success is returned', after)):
+            k += 1
+            rep.check(bool(lst), 'R13.20', '%s|%s' % (f.name.replace('soplex::', '')[:40], what), f.where(), 'rnames->num() compared with rset.num()',
+                      'readLPF never compares the number of row names with the number of rows %s: an unfinished last row or a name used twice leaves the name set out of step with '
+                      'the rows and readFile() still returns true (row nRows() is indexed when the names are used for a basis file)' % what)
+    if k < 4:
+        raise AnalysisBroken('R13.20: readLPF twins not found')
+
+
+_c13d0 = RULES['C13']
+
+
+def _c13w(fb, rep):
+    _c13d0(fb, rep)
+    c13d(fb, rep)
+
+
+RULES['C13'] = _c13w
